@@ -1,8 +1,9 @@
 import RsslVerif.Model.Include
+import RsslVerif.Model.MacroTame
 import RsslVerif.Driver.Util
 /-! Line-protocol front end of the C12 model (request syntax: see harness/src/c12.rs). -/
 namespace RsslVerif.Driver.C12
-open RsslVerif.Model.Macro RsslVerif.Model.Include RsslVerif.Driver
+open RsslVerif.Model.Macro RsslVerif.Model.Include RsslVerif.Model.MacroTame RsslVerif.Driver
 
 def isIdentString (s : String) : Bool :=
   match s.toList with
@@ -11,6 +12,7 @@ def isIdentString (s : String) : Bool :=
 
 def parseTok (s : String) : Option Tok :=
   if s == "~" then some .ws
+  else if s == "/**/" then some .ws
   else if s == "(" then some .lparen
   else if s == ")" then some .rparen
   else if s == "," then some .comma
@@ -92,24 +94,131 @@ def showErr : Err → String
   | .hang => "model-hang"
   | .guard w => "model-guard " ++ w
   | .unsupported w => "unsupported " ++ w
-  | .includeFuel => "unsupported include depth"
+  | .includeFuel => "err IncludeDepthExceeded"
 
 def run (api : List ApiDefine) (files : List (String × List Line)) : String :=
   match files with
   | [] => "bad-request"
   | (entry, _) :: _ =>
-    match preprocess (handlerOf files) 64 api entry with
+    match preprocess (handlerOf files) RsslVerif.Gen.MacroTables.maxIncludeDepth api entry with
     | .error e => showErr e
     | .ok ts =>
       match prepare ts with
       | .error e => showErr e
       | .ok out => (" ".intercalate ("ok" :: out.map showTok))
 
+
+/-! ## classification: is every block of the program in the class of `Thm.C12.expand_refines_spec_with_paste_decided`?
+
+The same walk over the lines as `Model.Include` (`stepLine` / `runFile` / `includeFile`), carrying a flag: every block
+of text lines is expanded under a table with pairwise distinct names and well-formed replacement lists
+(`wfPB`), and `tameRunP` accepts it. -/
+
+def namesDistinct : List String → Bool
+  | [] => true
+  | n :: r => !r.contains n && namesDistinct r
+
+/-- is this block in the class? -/
+def blockTame (macros : List Macro) (active : List PTok) : Bool :=
+  namesDistinct (macros.map (·.name)) && macros.all wfPB && active.all (fun t => t.tok != .concat) &&
+    (tameRunP (16 * active.length + 256) (macros.map (⟨·, false⟩)) active).isSome
+
+structure TState where
+  st : State
+  tame : Bool
+
+/-- `boundary`: the block ends where a file is included or an included file ends.  C has no block boundary there
+(inclusion is textual), so the class also requires that such a block does not end in the name of a function-like macro
+(an invocation that would span the boundary of a file). -/
+def tflush (ts : TState) (active : List PTok) (boundary : Bool := false) : Except Err TState :=
+  let ok := ts.tame && blockTame ts.st.macros active
+  match flush ts.st active with
+  | .error e => .error e
+  | .ok st =>
+    let produced := st.out.drop ts.st.out.length
+    let spans := boundary &&
+      (match lastTok produced with
+       | some (.id g) => ts.st.macros.any (fun m => m.name == g && m.isFunction)
+       | _ => false)
+    .ok ⟨st, ok && !spans⟩
+
+def tstepLine (inc : String → TState → Except Err TState) (cur : String) :
+    TState × List PTok → Line → Except Err (TState × List PTok)
+  | (ts, active), .text toks => .ok (ts, active ++ toks ++ [eol])
+  | (ts, active), .define cmd =>
+    match tflush ts active with
+    | .error e => .error e
+    | .ok ts =>
+      match doDefine ts.st.macros cmd with
+      | .error e => .error e
+      | .ok ms => .ok (⟨{ ts.st with macros := ms }, ts.tame⟩, [])
+  | (ts, active), .undef cmd =>
+    match tflush ts active with
+    | .error e => .error e
+    | .ok ts =>
+      match doUndef ts.st.macros cmd with
+      | .error e => .error e
+      | .ok ms => .ok (⟨{ ts.st with macros := ms }, ts.tame⟩, [])
+  | (ts, active), .pragmaWarning =>
+    match tflush ts active with
+    | .error e => .error e
+    | .ok ts => .ok (ts, [])
+  | (ts, active), .pragmaOnce =>
+    match tflush ts active with
+    | .error e => .error e
+    | .ok ts => .ok (⟨{ ts.st with once := cur :: ts.st.once }, ts.tame⟩, [])
+  | (ts, active), .incl name =>
+    match tflush ts active true with
+    | .error e => .error e
+    | .ok ts =>
+      match inc name ts with
+      | .error e => .error e
+      | .ok ts => .ok (ts, [])
+
+def tfoldLines (inc : String → TState → Except Err TState) (cur : String) :
+    TState × List PTok → List Line → Except Err (TState × List PTok)
+  | s, [] => .ok s
+  | s, l :: rest =>
+    match tstepLine inc cur s l with
+    | .error e => .error e
+    | .ok s' => tfoldLines inc cur s' rest
+
+def trunFile (inc : String → TState → Except Err TState) (cur : String) (ts : TState) (lines : List Line) :
+    Except Err TState :=
+  match tfoldLines inc cur (ts, fileStart lines) lines with
+  | .error e => .error e
+  | .ok (ts, active) => tflush ts active true
+
+def tincludeFile (h : Handler) : Nat → String → TState → Except Err TState
+  | 0, _, _ => .error .includeFuel
+  | fuel + 1, name, ts =>
+    match h name with
+    | none => .error (.failedToFindFile name)
+    | some lines =>
+      if ts.st.once.contains name then trunFile (tincludeFile h fuel) name ts []
+      else trunFile (tincludeFile h fuel) name ts lines
+
+/-- `tame`: every block is in the class and the model's run succeeds; `not-tame` otherwise -/
+def classify (api : List ApiDefine) (files : List (String × List Line)) : String :=
+  match files with
+  | [] => "bad-request"
+  | (entry, lines) :: _ =>
+    match initialMacros [] api with
+    | .error _ => "not-tame"
+    | .ok ms =>
+      match trunFile (tincludeFile (handlerOf files) RsslVerif.Gen.MacroTables.maxIncludeDepth) entry ⟨{ macros := ms, out := [], once := [] }, true⟩ lines with
+      | .error _ => "not-tame"
+      | .ok ts => if ts.tame then "tame" else "not-tame"
+
 def handle (op : String) (args : List String) : String :=
   match op, args with
   | "C12.run", api :: files =>
     match parseApi api, sequenceOpt (files.map parseFile) with
     | some api, some files => run api files
+    | _, _ => "bad-request"
+  | "C12.tame", api :: files =>
+    match parseApi api, sequenceOpt (files.map parseFile) with
+    | some api, some files => classify api files
     | _, _ => "bad-request"
   | "C12.limit", _ => "unsupported (resource test on the real code only)"
   | _, _ => "unsupported-op"
